@@ -95,7 +95,7 @@ def sym_float(v=0.0):
 
 def sym_int(v=0, *a):
     if isinstance(v, Sym):
-        raise Unsupported("int() of symbolic value")
+        return v.__int__()
     return builtins.int(v, *a)
 
 
